@@ -469,3 +469,7 @@ mod tests {
         }
     }
 }
+
+#[cfg(kani)]
+#[path = "/verif/units/kani/seglog_segment_rw.rs"]
+mod verif_kani;
